@@ -44,7 +44,13 @@ Definition user_ok (u : ufun) (view : record) (pers : option record) : bool :=
     | Some p =>
       negb (rs_stopped (r_state p)) &&
       obj_eqb (r_obj view) (r_obj p) && (r_ver view =? r_ver p) && (r_status view =? r_status p) &&
-      N.eqb (r_run view) (r_run p)
+      N.eqb (r_run view) (r_run p) &&
+      (* C12: a timeout (callback) function runs only for a run that waits at that very status and is not finished *)
+      match u with
+      | UFTimeout s _ => (r_status p =? s) && negb (rs_finished (r_state p))
+      | UFCallback s _ => r_status p =? s
+      | _ => true
+      end
     end
   else true.
 
@@ -118,3 +124,10 @@ Definition mon_C15 (g : graph) (t : tok) : bool :=
 
 Definition mon_C04 (g : graph) (t : tok) : bool :=
   on_step_call t (fun view pers => match pers with Some p => r_ver view =? r_ver p | None => false end).
+
+Definition mon_C12 (g : graph) (t : tok) : bool :=
+  match t with
+  | TUser (UFTimeout s _) _ pers _ _ =>
+    match pers with Some p => (r_status p =? s) && negb (rs_stopped (r_state p)) && negb (rs_finished (r_state p)) | None => false end
+  | _ => true
+  end.
